@@ -677,9 +677,11 @@ IsOrderName(nm) == Len(nm) > 13 /\ SubSeq(nm, 1, 13) = "symbol_order_"
 \* kind "tffproblem": r.nodes (reader output for the problem text), r.source (the formulas of the problem as trees: name, conj, f),
 \* r.syms (symbolic constants of the source formulas, byte order), r.preds (for strong equivalence: the program predicates)
 EvalProblem(r) ==
-  LET why == ProblemWhy(r.nodes)
+  LET whys == ProblemWhys(r.nodes)
       tab == SymTable(r.nodes)
-      rank == RankOf(r.syms)
+      \* a symbolic constant's place in the standard order is that of the user's name for it (anthem renames s to s__s when s
+      \* is also a 0-ary predicate; the orchestrator undoes exactly that documented renaming)
+      rank == [s \in {r.true_ranks[k][1] : k \in DOMAIN r.true_ranks} |-> r.true_ranks[CHOOSE k \in DOMAIN r.true_ranks : r.true_ranks[k][1] = s][2]]
       fs == Forms(r.nodes)
       srcNames == {r.source[k].name : k \in DOMAIN r.source}
       own == SelectSeq(fs, LAMBDA n : n.name \notin srcNames)          \* axioms anthem adds on its own
@@ -691,28 +693,35 @@ EvalProblem(r) ==
       ConstName(t) == IF t.k = "app" /\ t.f = "f__symbolic__" /\ Len(t.args) = 1 /\ t.args[1].k = "app" THEN t.args[1].f ELSE "?"
       chain == [k \in DOMAIN orderAx |-> IF orderAx[k].f.k = "patom" /\ orderAx[k].f.p = "p__less__" /\ Len(orderAx[k].f.args) = 2
                                          THEN <<ConstName(orderAx[k].f.args[1]), ConstName(orderAx[k].f.args[2])>> ELSE <<"?", "?">>]
-      expected == [k \in 1..(IF Len(r.syms) = 0 THEN 0 ELSE Len(r.syms) - 1) |-> <<r.syms[k], r.syms[k + 1]>>]
+      names == {r.syms[k] : k \in DOMAIN r.syms}
+      \* a path x1 < x2 < ... < xk through every symbolic constant of the problem exactly once
+      isChain == /\ Len(chain) = (IF Len(r.syms) = 0 THEN 0 ELSE Len(r.syms) - 1)
+                 /\ \A k \in 1..(Len(chain) - 1) : chain[k][2] = chain[k + 1][1]
+                 /\ {chain[k][1] : k \in DOMAIN chain} \cup {chain[k][2] : k \in DOMAIN chain} = (IF Len(r.syms) > 1 THEN names ELSE {})
+                 /\ \A k, m \in DOMAIN chain : k # m => chain[k][1] # chain[m][1]
       \* C06 inside the problem: each user formula of the text means what its source formula means
       SrcOf(nm) == r.source[CHOOSE k \in DOMAIN r.source : r.source[k].name = nm]
       roleOk == \A k \in DOMAIN user : (user[k].role = "conjecture") = SrcOf(user[k].name).conj
       meaning == [k \in DOMAIN user |-> EquivClosed(FormS(user[k].f, <<>>, tab, rank), SrcOf(user[k].name).f)]
       meaningAll == FoldSet(LAMBDA k, acc : MergeT(acc, meaning[k]), Zero, DOMAIN user)
-  IN IF why # "" THEN <<Out(r, "C09.problem_is_wellformed_tff", BadT([note |-> why]), "")>>
+  IN IF whys # <<>> THEN [k \in DOMAIN whys |-> Out(r, "C09.problem_is_wellformed_tff", BadT([note |-> whys[k]]), "")]
      ELSE <<Out(r, "C09.problem_is_wellformed_tff", OkT, ""),
             Out(r, "C09.text_carries_exactly_the_source_formulas",
                 IF Len(user) = Len(r.source) /\ roleOk THEN OkT ELSE BadT([note |-> "formulas of the text and of the problem differ in number or role"]), ""),
             Out(r, "C06.problem_formulas_preserve_meaning", meaningAll, ""),
             Out(r, "C12.own_axioms_true_in_standard_interpretation",
                 IF \E k \in DOMAIN own : ownVals[k] = "F"
-                THEN BadT([note |-> "an axiom anthem adds is false under the standard interpretation",
-                           axiom |-> own[CHOOSE k \in DOMAIN own : ownVals[k] = "F"].name])
+                THEN LET bad == own[CHOOSE k \in DOMAIN own : ownVals[k] = "F"] IN
+                     BadT([note |-> "an axiom anthem adds is false under the standard interpretation", axiom |-> bad.name,
+                           pair |-> IF IsOrderName(bad.name) /\ bad.f.k = "patom" /\ Len(bad.f.args) = 2 THEN <<ConstName(bad.f.args[1]), ConstName(bad.f.args[2])>> ELSE <<>>,
+                           renamed |-> r.renamed])
                 ELSE IF \E k \in DOMAIN preamble : preamble[k].name \notin PreambleNames
                 THEN BadT([note |-> "an axiom that is neither from the user's files nor of a known kind",
                            axiom |-> preamble[CHOOSE k \in DOMAIN preamble : preamble[k].name \notin PreambleNames].name])
                 ELSE [OkT EXCEPT !.n = Len(own)], ""),
             Out(r, "C12.symbol_order_is_a_covering_chain",
-                IF chain = expected THEN OkT
-                ELSE BadT([note |-> "the ordering axioms are not the chain of all symbolic constants in byte order", got |-> chain, expected |-> expected]), "")>>
+                IF isChain THEN OkT
+                ELSE BadT([note |-> "the ordering axioms are not a chain through all symbolic constants of the problem", got |-> chain, symbols |-> r.syms]), "")>>
 
 \* strong equivalence: every h-implies-t axiom holds whenever H is below T (all pairs over the atoms the axioms mention)
 EvalTransition(r) ==
